@@ -11,8 +11,9 @@ from . import _auth
 ID = "C11"
 P = "Webauthn.Props.C11."
 THEOREMS = [P + n for n in ("total", "too_short", "header", "leftover_plain", "parseCbor_err", "flagsByteOf_total",
-                            "exact", "suffix_rejected")] + \
-           ["Webauthn.Props.C10.layout", "Webauthn.Cbor.dec_enc", "Webauthn.parseCbor_enc", "Webauthn.parseAuthData_encode_sfx"]
+                            "exact", "suffix_rejected", "truncated", "fuel_suffices")] + \
+           ["Webauthn.Props.C10.layout", "Webauthn.Cbor.dec_enc", "Webauthn.parseCbor_enc", "Webauthn.parseAuthData_encode_sfx",
+            "Webauthn.Cbor.dec_prefix", "Webauthn.Cbor.enough", "Webauthn.Cbor.mono", "Webauthn.parseCbor_prefix"]
 LEAN_TARGETS = ["Props.C11"]
 SPEC_FILES = ["Spec/Core.lean", "Model/Cbor.lean"]
 ASSUMPTIONS = ["CBOR outside the modelled fragment (tags, floats, indefinite lengths, other simple values, non-scalar map keys) is "
